@@ -16,7 +16,9 @@ pub const OFFS: &[&[u8]] = &[b"0", b"1", b"3", b"10", b"536870913", b"1844674407
 pub const TTLS: &[&[u8]] = &[b"100", b"1000", b"18446744073709551615", b"9223372036854775807", b"abc", b"-1", b"", b"100000"];
 // millisecond TTLs: never short enough to expire during a history (expiry itself is C02's subject)
 pub const TTLS_MS: &[&[u8]] = &[b"100000", b"1000000", b"18446744073709551615", b"9223372036854775807", b"abc", b"-1", b"", b"9223372036854775807000"];
-pub const PATTERNS: &[&[u8]] = &[b"*", b"k*", b"k?", b"?1", b"[kl]*", b"k[1-2]", b"[^k]*", b"*1", b"\\k1", b"k\\*", b"", b"*:*", b"k[", b"**1", b"*?*"];
+pub const PATTERNS: &[&[u8]] = &[b"*", b"k*", b"k?", b"?1", b"[kl]*", b"k[1-2]", b"[^k]*", b"*1", b"\\k1", b"k\\*", b"", b"*:*", b"k[", b"**1", b"*?*",
+    // classes as Redis reads them (5de9d19): ranges, negated ranges, reversed range, unterminated, escape inside
+    b"k[a-b]", b"k[^1-2]", b"[z-a]*", b"k[12", b"k[\\1]", b"k[]1]", b"?[a-z1]", b"*[ab]"];
 
 pub const WITH_OTHER_TYPES: bool = true;
 
